@@ -47,6 +47,7 @@ type Gen struct {
 	name string // display name pkg.Func
 
 	*shared
+	umode bool // unconditional pass: no requires, only `guarantees` clauses and U-invariants are proved
 
 	vals   map[ssa.Value]Term
 	places map[ssa.Value]*Place
@@ -215,7 +216,7 @@ func (g *Gen) addObl(kind, label string, reach Term, goal Term, src string, cove
 	// Execution reaches this point only if every earlier run-time check
 	// passed (otherwise the program panicked). Safety obligations carry
 	// their own per-site prefixes instead (see Gen.safety).
-	if kind != "safety" && kind != "pre" && kind != "inv.entry" && g.sfPrefix != "" {
+	if kind != "safety" && kind != "pre" && kind != "inv.entry" && kind != "ginv.entry" && g.sfPrefix != "" {
 		reach = fmt.Sprintf("(and %s %s)", g.sfPrefix, reach)
 	}
 	if cover {
@@ -232,8 +233,45 @@ func (g *Gen) addObl(kind, label string, reach Term, goal Term, src string, cove
 }
 
 // GenFunction generates all obligations of fn against its contract.
+// GenFunction generates the obligations of fn: the conditional pass (under the
+// contract's preconditions) and, when the contract has `guarantees` clauses or
+// U-invariants, the unconditional pass over the same body.
 func GenFunction(prog *Program, u *Universe, fn *ssa.Function, con *spec.FuncContract) (obls []*Obligation, err error) {
-	g := &Gen{prog: prog, u: u, fn: fn, con: con, name: displayName(fn),
+	obls, err = genPass(prog, u, fn, con, false)
+	if err != nil {
+		return obls, err
+	}
+	needU := len(con.Guarantees) > 0
+	for _, inv := range con.Invs {
+		if inv.U {
+			needU = true
+		}
+	}
+	if needU {
+		main := lastShared
+		uo, uerr := genPass(prog, u, fn, con, true)
+		obls = append(obls, uo...)
+		if lastShared != nil && main != nil && lastShared != main {
+			for k := range lastShared.assumed {
+				main.assumed[k] = true
+			}
+			for k := range lastShared.external {
+				main.external[k] = true
+			}
+			for k := range lastShared.uncontracted {
+				main.uncontracted[k] = true
+			}
+			lastShared = main
+		}
+		if uerr != nil {
+			return obls, uerr
+		}
+	}
+	return obls, nil
+}
+
+func genPass(prog *Program, u *Universe, fn *ssa.Function, con *spec.FuncContract, umode bool) (obls []*Obligation, err error) {
+	g := &Gen{prog: prog, u: u, fn: fn, con: con, name: displayName(fn), umode: umode,
 		shared: &shared{declared: map[string]bool{}, ordinals: map[string]int{}, assumed: map[string]bool{}, inlined: map[string]bool{},
 			usedSpecFuncs: map[string]bool{}, uncontracted: map[string]bool{}, external: map[string]bool{}, usedClauses: map[string]bool{}},
 		tuples: map[ssa.Value][]Term{}, strFrom: map[Term]Term{}, rangeSt: map[ssa.Value]*rangeState{},
@@ -281,6 +319,10 @@ func (g *Gen) run() {
 		g.paramConsts = append(g.paramConsts, c)
 		g.vals[p] = c
 		g.assert(g.u.rangeFact(c, p.Type(), g.top(g.entry)))
+		if !g.prog.interiorTaint(g.u).vals[p] {
+			// no interior reference can flow into this parameter (taint.go)
+			g.assert(g.u.plainFact(c, p.Type()))
+		}
 		tv := TV{c, srt, p.Type()}
 		g.params[p.Name()] = tv
 		if len(names) > 0 && names[i] != "_" {
@@ -306,13 +348,17 @@ func (g *Gen) run() {
 	g.results = g.con.Results
 	// requires
 	env := g.newEnv(g.entry, g.entry)
-	for _, r := range g.con.Requires {
-		t := g.evalBool(env, r.Expr, r.Src)
-		g.assert(t)
+	if !g.umode {
+		for _, r := range g.con.Requires {
+			t := g.evalBool(env, r.Expr, r.Src)
+			g.assert(t)
+		}
 	}
 	g.findLoops()
 	// vacuity: requires satisfiable
-	g.addObl("cover", "requires", "true", "true", g.con.Src, true)
+	if !g.umode {
+		g.addObl("cover", "requires", "true", "true", g.con.Src, true)
+	}
 
 	order := g.topoOrder()
 	for _, b := range order {
@@ -324,7 +370,7 @@ func (g *Gen) run() {
 		d := g.deferred[k]
 		g.addObl(d.kind, d.label, "true", "(and "+strings.Join(d.parts, " ")+" true)", d.src, false)
 	}
-	if len(g.retReach) > 0 {
+	if len(g.retReach) > 0 && !g.umode {
 		g.addObl("cover", "return", "(or "+strings.Join(g.retReach, " ")+" false)", "true", g.con.Src, true)
 	}
 	if g.retBlocks == 0 && !hasOpt(g.con, "noreturn") {
@@ -594,6 +640,10 @@ func (g *Gen) loopHeader(li *loopInfo, pre *State, phiFwd map[*ssa.Phi]Term) *St
 	b := li.header
 	r := g.reach[b]
 	invs := g.invariantsFor(li.ord)
+	kindEntry := "inv.entry"
+	if g.umode {
+		kindEntry = "ginv.entry"
+	}
 	// entry obligations
 	env := g.newEnv(pre, g.entry)
 	env.loop = li
@@ -607,7 +657,7 @@ func (g *Gen) loopHeader(li *loopInfo, pre *State, phiFwd map[*ssa.Phi]Term) *St
 	li.pre, li.prePhi = pre, env.phiOverride
 	for _, inv := range invs {
 		goal := g.evalBool(env, inv.Expr, inv.Src)
-		g.addObl("inv.entry", fmt.Sprintf("L%d.%s", li.ord, inv.Label), g.guarded(r), goal, inv.Src, false)
+		g.addObl(kindEntry, fmt.Sprintf("L%d.%s", li.ord, inv.Label), g.guarded(r), goal, inv.Src, false)
 		if !g.invUnproved(li, inv) {
 			g.chain(fmt.Sprintf("(=> %s %s)", r, goal))
 		}
@@ -631,7 +681,13 @@ func (g *Gen) loopHeader(li *loopInfo, pre *State, phiFwd map[*ssa.Phi]Term) *St
 	}
 	env2 := g.newEnv(st, g.entry)
 	env2.loop = li
-	for _, inv := range invs {
+	assumed := invs
+	if !g.umode {
+		// the conditional pass may rely on the invariants of the unconditional
+		// pass (proved there without the preconditions, hence also valid here)
+		assumed = append(append([]*spec.Clause(nil), invs...), g.uInvariantsFor(li.ord)...)
+	}
+	for _, inv := range assumed {
 		if g.invUnproved(li, inv) {
 			continue // generated and reported, never assumed
 		}
@@ -645,13 +701,29 @@ func (g *Gen) loopHeader(li *loopInfo, pre *State, phiFwd map[*ssa.Phi]Term) *St
 // discharge on the unchanged tree (SkipClauses), so it must not be assumed.
 func (g *Gen) invUnproved(li *loopInfo, inv *spec.Clause) bool {
 	n := fmt.Sprintf("L%d.%s", li.ord, inv.Label)
-	return SkipClauses[g.name+"#inv.entry."+n] || SkipClauses[g.name+"#inv.step."+n]
+	k := "inv"
+	if inv.U {
+		k = "ginv"
+	}
+	return SkipClauses[g.name+"#"+k+".entry."+n] || SkipClauses[g.name+"#"+k+".step."+n]
 }
 
+// invariantsFor: the invariants this pass PROVES for loop ord (the conditional
+// pass proves the ordinary ones, the unconditional pass the U ones).
 func (g *Gen) invariantsFor(ord int) []*spec.Clause {
 	var out []*spec.Clause
 	for _, inv := range g.con.Invs {
-		if inv.Loop == ord || inv.Loop == 0 {
+		if (inv.Loop == ord || inv.Loop == 0) && inv.U == g.umode {
+			out = append(out, inv)
+		}
+	}
+	return out
+}
+
+func (g *Gen) uInvariantsFor(ord int) []*spec.Clause {
+	var out []*spec.Clause
+	for _, inv := range g.con.Invs {
+		if (inv.Loop == ord || inv.Loop == 0) && inv.U {
 			out = append(out, inv)
 		}
 	}
@@ -688,7 +760,11 @@ func (g *Gen) loopStep(li *loopInfo, from *ssa.BasicBlock, st *State) {
 	}
 	for _, inv := range invs {
 		goal := g.evalBool(env, inv.Expr, inv.Src)
-		g.deferObl("inv.step", fmt.Sprintf("L%d.%s", li.ord, inv.Label), ec, goal, inv.Src)
+		ks := "inv.step"
+		if g.umode {
+			ks = "ginv.step"
+		}
+		g.deferObl(ks, fmt.Sprintf("L%d.%s", li.ord, inv.Label), ec, goal, inv.Src)
 	}
 }
 
@@ -724,6 +800,8 @@ func GenFunctionInfo(prog *Program, u *Universe, fn *ssa.Function, con *spec.Fun
 			}
 			if c != nil && (c.Trusted || c.Iface) {
 				used = append(used, k)
+			} else if c == nil && strings.Contains(k, " ") {
+				used = append(used, k) // built-in model / assumed clause / call-through rule
 			}
 		}
 		for k := range lastShared.external {
